@@ -17,7 +17,7 @@ RULE = (
     'lower hemisphere; bases at 0, near and far; radius and height log-uniform in 1e-3..1e3; unit from '
     '{m, mm, cm, um, angstrom}. Rays per cylinder: from a point inside, from outside aimed at the solid, random '
     'direction, exactly parallel to the axis (inside/outside the radius), nearly parallel (1e-5, 1e-3), perpendicular, '
-    'tangent to the side wall (offset 0, +-1e-12, +-1e-8, +-1e-4 of the radius), through the rim, inside a cap plane, '
+    'within 1e-16..1e-5 of +-axis and parallel up to rounding (not bit-identical), tangent to the side wall (offset 0, +-1e-12, +-1e-8, +-1e-4 of the radius), through the rim, inside a cap plane, '
     'starting on the surface. Quadrature: kinds cheap/medium/expensive, height/radius ratios crossing every node-count '
     'threshold. Transmission: wavelengths log-uniform 0.1..20 angstrom, detectors in all directions (incl. on the axis '
     'and along the beam), near and far. A case is distinct by (operation, all input bit patterns); non-trivial when the '
@@ -33,9 +33,10 @@ ASSUMPTIONS = [
     'libm sin/cos/atan2/exp and scipy Rotation.from_rotvec agree with the exact functions to a few ulp '
     '(correspondence tolerance 1e-9 relative to the size of the solid)',
     'axis vectors are unit to rounding; the exact reference normalises the given axis',
-    'floating point: the theorems are over the reals; the code loses all accuracy for rays parallel to the axis up to '
-    'rounding (known finding C18:near-axis-ray-rounding, found by the exact-arithmetic oracle and the rigid-motion '
-    'oracle); the correspondence therefore uses directions whose angle to the axis is exactly 0 or at least 1e-5',
+    'floating point: the theorems are over the reals; floating-point accuracy of the kernels is validated by the '
+    'exact-arithmetic oracle (1e-9 of the size of the solid), including directions within 1e-16..1e-5 of the axis '
+    '(finding C18:near-axis-ray-rounding, fixed in ef5a368; the pre-fix formula is kept as lineInfiniteCylinderOld '
+    'and proved equal over the reals)',
     'rigid-motion / other-end invariance of the discrete transmission sum is validated at the accuracy of the '
     "quadrature (tolerance from |T_medium - T_expensive|), not proved; for exact path lengths it is proved",
     '0 < |z x a| < 1e-10 (axis within 1e-10 of +-z without being +-z): the code skips the rotation; points are then '
@@ -180,10 +181,9 @@ def gen_cylinder(rng, same_scale=False):
 RAY_CATS = ['inside', 'aimed', 'random', 'parallel_in', 'parallel_out', 'near_parallel', 'perpendicular',
             'tangent', 'tangent_off', 'surface', 'rim', 'capgraze', 'parallel_on_wall', 'far_aimed', 'center_axis']
 BOUNDARY_CATS = {'rim', 'capgraze', 'parallel_on_wall'}
-# rays parallel to the axis up to rounding (direction = axis with the last bits perturbed): evaluated by the oracle
-# only; the correspondence keeps to directions whose angle to the axis is 0 or >= 1e-5, because there the
-# implementation's result is dominated by the rounding error of n x a (see known finding C18:near-axis-ray-rounding)
-ORACLE_ONLY_CATS = ['parallel_rounded']
+# rays parallel to the axis up to rounding or within 1e-16..1e-5 of it (not bit-identical): since fix ef5a368 the code
+# handles them, so they are part of the correspondence and of the oracle; a regression is reported under NEAR_AXIS_KEY
+NEAR_AXIS_CATS = ['parallel_rounded', 'near_axis']
 NEAR_AXIS_KEY = 'C18:near-axis-ray-rounding'
 
 
@@ -264,6 +264,16 @@ def gen_ray(rng, c, cat):
         if rng.random() < 0.7:
             return pt(rng.uniform(0.05, 0.95) * h, math.sqrt(rng.uniform(0, 0.9)) * r), n
         return pt(rng.uniform(-2, 3) * h, rng.uniform(1.1, 3) * r), n
+    if cat == 'near_axis':
+        # within 1e-16 .. 1e-5 of +-axis, not bit-identical; in long thin and in ordinary cylinders
+        d = _lu(rng, 1e-16, 1e-5) * rng.choice([1, -1])
+        sgn = rng.choice([1.0, -1.0])
+        n = _unit([sgn * a[i] + d * (math.cos(phi) * e1[i] + math.sin(phi) * e2[i]) for i in range(3)])
+        if n in ([sgn * x for x in a],):
+            n = _ulp_perturb(rng, n)
+        if rng.random() < 0.7:
+            return pt(rng.uniform(0.05, 0.95) * h, math.sqrt(rng.uniform(0, 0.9)) * r), n
+        return pt(rng.uniform(-2, 3) * h, rng.uniform(0, 3) * r), n
     if cat == 'parallel_on_wall':
         s = rng.choice([1.0, -1.0])
         return pt(rng.uniform(-2, 3) * h, r), [s * x for x in a]
@@ -435,7 +445,8 @@ def close_lengths(x, y, scale):
 # ---------------------------------------------------------------------------------------------
 # correspondence
 
-def _beam_cases(ctx, n_cyl, cats=RAY_CATS):
+def _beam_cases(ctx, n_cyl, cats=None):
+    cats = RAY_CATS + NEAR_AXIS_CATS if cats is None else cats
     out = []
     for _ in range(n_cyl):
         c = gen_cylinder(ctx.rng, same_scale=ctx.rng.random() < 0.7)
@@ -596,7 +607,7 @@ def _off_axis(a, d):
     return _unit([d[i] + 1e-3 * e1[i] for i in range(3)])
 
 
-def gen_transmission_case(rng, kind=None, axis_aligned='beam'):
+def gen_transmission_case(rng, kind=None, axis_aligned='all'):
     """axis_aligned: 'none' — neither the beam nor a detector direction is within 1e-4 of the axis;
     'beam' — the beam may be bit-identical to +-axis (exactly parallel), detectors off the axis line;
     'all' — detectors may also sit on the axis line (directions parallel up to rounding)"""
@@ -607,7 +618,9 @@ def gen_transmission_case(rng, kind=None, axis_aligned='beam'):
         c['base'] = [x / 50 for x in c['base']]
     kind = kind or rng.choice(['cheap', 'cheap', 'medium', 'medium', 'expensive'])
     beam = rng.choice([_rand_unit(rng), [0.0, 0.0, 1.0], c['a'], [-x for x in c['a']]])
-    if axis_aligned == 'none' or (beam not in (c['a'], [-x for x in c['a']])):
+    if axis_aligned == 'all' and rng.random() < 0.2:  # parallel to the axis up to rounding
+        beam = _ulp_perturb(rng, rng.choice([c['a'], [-x for x in c['a']]]))
+    if axis_aligned == 'none' or (axis_aligned == 'beam' and beam not in (c['a'], [-x for x in c['a']])):
         beam = _off_axis(c['a'], beam)
     ctr = [c['base'][i] + c['a'][i] * c['h'] / 2 for i in range(3)]
     dets = []
@@ -707,8 +720,41 @@ def _correspond_transmission(ctx):
                          'transmission: implementation vs model')
 
 
+def _corpus_payloads():
+    import glob
+    import json
+    import os
+
+    d = os.path.join(os.path.dirname(os.path.dirname(os.path.dirname(os.path.abspath(__file__)))), 'corpus', 'C18')
+    out = []
+    for path in sorted(glob.glob(os.path.join(d, '*.json'))):
+        with open(path) as f:
+            out.append((os.path.basename(path), json.load(f)))
+    return out
+
+
+def _correspond_corpus(ctx):
+    """the minimised witnesses of C18:near-axis-ray-rounding: the implementation and the model of the CURRENT code
+    agree; the model's named pre-fix variant (lineInfiniteCylinderOld) still shows the defect (recorded, not required)"""
+    items = [(name, p['witness']) for name, p in _corpus_payloads() if 'start' in p.get('witness', {})]
+    lines = []
+    for _, w in items:
+        lines += [_beam_line(w, w['start'], w['n']), _beam_line(w, w['start'], w['n']).replace('c18.beam ', 'c18.beamold ', 1)]
+    outs = ctx.driver(lines)
+    for k, (name, w) in enumerate(items):
+        li = impl_beam(w, [(w['start'], w['n'])])[0]
+        lm, lold = unbits(outs[2 * k]), unbits(outs[2 * k + 1])
+        ex = exact_path(w['a'], w['base'], w['r'], w['h'], w['start'], w['n'])
+        scale = beam_scale(w, w['start'])
+        ctx.case(('corpus-beam', name), True, sample={'op': 'corpus', 'file': name, 'impl': li, 'model': lm, 'model_old_formula': lold, 'exact': ex})
+        ctx.count('corpus:old-formula-' + ('reproduces-defect' if not close_lengths(lold, ex, scale) else 'accurate'))
+        if not close_lengths(li, lm, scale):
+            ctx.disagree({'op': 'beam', 'corpus': name}, li, lm, 'path length: implementation vs model')
+
+
 def correspond(ctx):
     _correspond_tables(ctx)
+    _correspond_corpus(ctx)
     _correspond_beam(ctx)
     _correspond_quadrature(ctx)
     _correspond_transmission(ctx)
@@ -766,7 +812,7 @@ def check_line_rules(ctx):
 
 
 def oracle_beam(ctx, n_cyl):
-    for c, rays in _beam_cases(ctx, n_cyl, RAY_CATS + ORACLE_ONLY_CATS * 3):
+    for c, rays in _beam_cases(ctx, n_cyl, RAY_CATS + NEAR_AXIS_CATS * 2):
         impl = impl_beam(c, [(s, n) for _, s, n in rays])
         maxlen = math.hypot(2 * c['r'], c['h'])
         for (cat, s, n), li in zip(rays, impl):
@@ -1112,15 +1158,15 @@ LEVEL_TEXT = (
     'to the table accuracy); disk_tables_ok by decide +kernel on the tables regenerated from quadratures.py on every run '
     '(weights > 0, nodes in the unit disk, all moments up to degree 3 within 1e-14 (disk12) / 5e-7 (disk55, disk256_cheb) '
     'using pi_gt_d20/pi_lt_d20); transmission in (0, 1 + eps_tab/pi] (partial: disk256_cheb weights sum to more than pi, '
-    'proved), equal to sum(w)/V at mu = 0, antitone in mu; fixed_variant_same — the proposed repair of the near-axis '
-    'rounding defect is the same function over the reals. The model is tied to the Python code on every run by a '
+    'proved), equal to sum(w)/V at mu = 0, antitone in mu; old_variant_same — the formula before fix ef5a368 is the same '
+    'function over the reals as the current code (all theorems are about the current code). The model is tied to the Python code on every run by a '
     'correspondence over path lengths, node counts, quadrature points/weights and transmission maps.'
 )
 LEVEL_NOTE = (
     'Trusted: Lean kernel, propext/Classical.choice/Quot.sound, the table translator, the hand transcription of '
     'cylinder.py/base.py (compared with the implementation on every run), libm/scipy rotation, numpy Gauss nodes '
     '(validated against closed forms on every run). Floating-point behaviour is validated (exact-arithmetic oracle), '
-    'not proved: known finding C18:near-axis-ray-rounding. Invariance of the discrete transmission sum under rigid '
+    'not proved (C18:near-axis-ray-rounding was found that way and is fixed). Invariance of the discrete transmission sum under rigid '
     'motions is validated at the quadrature accuracy, not proved (for path lengths it is proved).'
 )
 TECHNIQUE = 'Lean 4 proof over the reals of an executable model + translator-regenerated tables + model/implementation correspondence + exact-arithmetic oracle'
